@@ -8,7 +8,6 @@ use unicode_width::UnicodeWidthStr;
 use crate::ansi::measure_text_width;
 use crate::color;
 use crate::config;
-use crate::config::delta_unreachable;
 use crate::delta::{self, State, StateMachine};
 use crate::fatal;
 use crate::format::{self, FormatStringSimple, Placeholder};
@@ -169,10 +168,12 @@ impl StateMachine<'_> {
                     self.get_next_color(Some(key_color))
                 }
             }
-            (None, _, true) => delta_unreachable("is_repeat cannot be true when key has no color."),
-            (Some(_), None, _) => {
-                delta_unreachable("There must be a previous key if the key has a color.")
+            // The remaining cases arise when git colored some of the lines itself (e.g.
+            // `git blame --color-by-age`): no color is recorded for those lines.
+            (None, previous_key_color, true) => {
+                self.get_next_color(previous_key_color.map(|c| c.as_str()))
             }
+            (Some(key_color), None, _) => key_color.to_owned(),
         }
     }
 
